@@ -203,6 +203,10 @@ class Ctx:
         if self.trace is not None and len(self.trace) < 4000:
             self.trace.append("t=%.6f %s" % ((self.now - 1_000 * SEC) / SEC, s))
 
+    def op(self, *items):
+        """log an operation of the scenario (shows up in replay traces)"""
+        self.log("op", *items)
+
     def digest(self):
         return self._h.hexdigest()
 
